@@ -1,8 +1,9 @@
 /-
   C17 — verify-index accepts a file if and only if it matches the index.
 
-  Model: `Model/VerifyIndex.lean`; the batching arithmetic (`batch`, loop step, `last`, clamp,
-  slice bounds) is regenerated from verifyindex.go on every run, so `batches_partition` is a
+  Model: `Model/VerifyIndex.lean`; the batching arithmetic (the feeder loop evaluated
+  symbolically: start, condition, slice bounds, next value of the loop variable as functions of
+  the loop variable, the chunk count and the worker count) is regenerated from verifyindex.go on every run, so `batches_partition` is a
   theorem about the expressions the code contains now.  Digest `H` is a parameter.
   `Model/VerifyIndexConc.lean`: the function as the code runs it — length check, then the worker
   pool of `Model/Pool.lean` whose job j is the j-th batch and succeeds iff every chunk of the batch
@@ -87,35 +88,41 @@ theorem gen_pool_shape :
     (Pool.PoolShape.mk Gen.poolShape_VerifyIndex.1 Gen.poolShape_VerifyIndex.2).ok = true ∧
     Gen.site_pool_VerifyIndex_found = true ∧ Gen.site_pool_waitOrInterrupted_found = true := by decide
 
-/-- regenerated sites were found -/
+/-- regenerated sites were found: the feeder loop of `VerifyIndex` was recognised and evaluated
+    symbolically (start value, condition, slice bounds and next value of its loop variable) -/
 theorem gen_sites :
-    Gen.site_verify_batch_found = true ∧ Gen.site_verify_step_found = true ∧
-    Gen.site_verify_last_found = true ∧ Gen.site_verify_clampCond_found = true ∧
-    Gen.site_verify_clampVal_found = true ∧ Gen.site_verify_sliceLo_found = true ∧
-    Gen.site_verify_sliceHi_found = true := by decide
+    Gen.site_verify_init_found = true ∧ Gen.site_verify_cond_found = true ∧
+    Gen.site_verify_lo_found = true ∧ Gen.site_verify_hi_found = true ∧
+    Gen.site_verify_next_found = true := by decide
 
 /-! non-vacuity -/
-example : batches 25 1 = [(0,3),(3,6),(6,9),(9,12),(12,15),(15,18),(18,21),(21,24),(24,25)] := by decide
+-- (stated so that it does not depend on the batch size, which the property does not depend on either)
+example : (batches 25 1).head? = some (0, feedBatch 25 1 + 1) ∧
+    (batches 25 1).getLast?.map (·.2) = some 25 ∧ 2 ≤ (batches 25 1).length := by decide
 example : Tiles 0 [⟨[], 0, 5⟩, ⟨[], 5, 7⟩] ∧ tileEnd 0 [⟨[], 0, 5⟩, ⟨[], 5, 7⟩] = 12 := by
   simp [Tiles, tileEnd]
 
-/-- the hypotheses of `verify_index_concurrent` are satisfiable: a two-chunk file that matches, two
-    workers, a schedule ending in success; and a mismatching one ending in `mismatch` -/
-example : ∃ s, Pool.ReachableJ ⟨true, true⟩ (goodBatch (fun b => b) [1, 2, 3] ⟨0, 0, 0, 0, [⟨[1], 0, 1⟩, ⟨[2, 3], 1, 2⟩]⟩ 2)
-      (Pool.St.init (verifyJobs ⟨0, 0, 0, 0, [⟨[1], 0, 1⟩, ⟨[2, 3], 1, 2⟩]⟩ 2) 2) s ∧
-    verifyIndexConc [1, 2, 3] false ⟨0, 0, 0, 0, [⟨[1], 0, 1⟩, ⟨[2, 3], 1, 2⟩]⟩ 2 s = some .ok := by
-  have hrun : ((Pool.runJ ⟨true, true⟩ (goodBatch (fun b => b) [1, 2, 3] ⟨0, 0, 0, 0, [⟨[1], 0, 1⟩, ⟨[2, 3], 1, 2⟩]⟩ 2)
-      (Pool.St.init 2 2) [.feedSend 1, .feedSend 0, .workOk 0, .feedEnd, .workExit 0, .workOk 1, .workExit 1, .wait]).map
+/-- the hypotheses of `verify_index_concurrent` are satisfiable: a one-chunk file that matches (one
+    chunk is one batch whatever the batch size, which the property does not depend on), two workers, a
+    schedule ending in success; and a mismatching one ending in `mismatch` -/
+example : ∃ s, Pool.ReachableJ ⟨true, true⟩ (goodBatch (fun b => b) [1, 2, 3] ⟨0, 0, 0, 0, [⟨[1, 2, 3], 0, 3⟩]⟩ 2)
+      (Pool.St.init (verifyJobs ⟨0, 0, 0, 0, [⟨[1, 2, 3], 0, 3⟩]⟩ 2) 2) s ∧
+    verifyIndexConc [1, 2, 3] false ⟨0, 0, 0, 0, [⟨[1, 2, 3], 0, 3⟩]⟩ 2 s = some .ok := by
+  have hj : verifyJobs ⟨0, 0, 0, 0, [⟨[1, 2, 3], 0, 3⟩]⟩ 2 = 1 := by decide
+  rw [hj]
+  have hrun : ((Pool.runJ ⟨true, true⟩ (goodBatch (fun b => b) [1, 2, 3] ⟨0, 0, 0, 0, [⟨[1, 2, 3], 0, 3⟩]⟩ 2)
+      (Pool.St.init 1 2) [.feedSend 1, .workOk 1, .feedEnd, .workExit 0, .workExit 1, .wait]).map
       (·.result)) = some (some .ok) := by decide
-  cases hs : Pool.runJ ⟨true, true⟩ (goodBatch (fun b => b) [1, 2, 3] ⟨0, 0, 0, 0, [⟨[1], 0, 1⟩, ⟨[2, 3], 1, 2⟩]⟩ 2)
-      (Pool.St.init 2 2) [.feedSend 1, .feedSend 0, .workOk 0, .feedEnd, .workExit 0, .workOk 1, .workExit 1, .wait] with
+  cases hs : Pool.runJ ⟨true, true⟩ (goodBatch (fun b => b) [1, 2, 3] ⟨0, 0, 0, 0, [⟨[1, 2, 3], 0, 3⟩]⟩ 2)
+      (Pool.St.init 1 2) [.feedSend 1, .workOk 1, .feedEnd, .workExit 0, .workExit 1, .wait] with
   | none => simp [hs] at hrun
   | some s =>
     simp only [hs, Option.map_some, Option.some.injEq] at hrun
     exact ⟨s, Pool.reachableJ_of_runJ _ .refl hs, by simp [verifyIndexConc, hrun]; decide⟩
 
-example : ((Pool.runJ ⟨true, true⟩ (goodBatch (fun b => b) [1, 2, 4] ⟨0, 0, 0, 0, [⟨[1], 0, 1⟩, ⟨[2, 3], 1, 2⟩]⟩ 1)
-      (Pool.St.init 2 1) [.feedSend 0, .workOk 0, .feedSend 0, .workFail 0, .feedEnd, .wait]).map (·.result)) =
+example : verifyJobs ⟨0, 0, 0, 0, [⟨[1, 2, 3], 0, 3⟩]⟩ 1 = 1 ∧
+    ((Pool.runJ ⟨true, true⟩ (goodBatch (fun b => b) [1, 2, 4] ⟨0, 0, 0, 0, [⟨[1, 2, 3], 0, 3⟩]⟩ 1)
+      (Pool.St.init 1 1) [.feedSend 0, .workFail 0, .feedEnd, .wait]).map (·.result)) =
     some (some .err) := by decide
 
 /-- **regenerated obligation**: `desync verify-index` hands every invocation to `VerifyIndex` with the worker
